@@ -755,6 +755,9 @@ func init() {
 		"runtime.Gosched": func(e *Engine, fn *ssa.Function, args []Val) Val { e.freeYield("Gosched"); return nil },
 		"runtime.KeepAlive": nop,
 	}
+	for k, f := range bigStubs() {
+		stubTable[k] = f
+	}
 }
 
 func stubErrJoin(e *Engine, fn *ssa.Function, args []Val) Val {
@@ -1218,6 +1221,16 @@ func stubCborMarshal(e *Engine, fn *ssa.Function, args []Val) Val {
 			return mk([]Val{Int{W: 8, C: 0xf5}})
 		}
 		return mk([]Val{Int{W: 8, C: 0xf4}})
+	case Slice:
+		// arrays of numbers: the array header of real CBOR followed by the element models
+		if st, ok := v.T.Underlying().(*types.Slice); ok && x.Len < 24 {
+			out := []Val{Int{W: 8, C: 0x80 + uint64(x.Len)}}
+			for _, c := range e.cells(x) {
+				r := stubCborMarshal(e, fn, []Val{Iface{T: st.Elem(), V: c}}).(Tuple)
+				out = append(out, e.cells(r[0].(Slice))...)
+			}
+			return mk(out)
+		}
 	}
 	if _, ok := v.T.Underlying().(*types.Struct); ok {
 		return stubBoxMarshal(e, fn, args)
@@ -1370,6 +1383,41 @@ func stubCborUnmarshal(e *Engine, fn *ssa.Function, args []Val) Val {
 			e.store(p, Iface{T: types.Typ[types.Float64], V: stubFloatFromBits(e, fn, []Val{e.fromBE(cells[1:], 64)})})
 		case hdr.C >= 0x60 && hdr.C < 0x78 && len(cells) == 1+int(hdr.C-0x60):
 			e.store(p, Iface{T: types.Typ[types.String], V: Str{B: append([]Val{}, cells[1:]...)}})
+		case hdr.C >= 0x80 && hdr.C < 0x98:
+			n := int(hdr.C - 0x80)
+			rest := cells[1:]
+			anyT := types.NewInterfaceType(nil, nil)
+			var elems []Val
+			for i := 0; i < n; i++ {
+				if len(rest) == 0 {
+					return fail()
+				}
+				h := rest[0].(Int)
+				if h.sym() {
+					return fail()
+				}
+				sz := 1
+				if h.C == 0x1b || h.C == 0xfb {
+					sz = 9
+				} else if h.C >= 0x60 && h.C < 0x78 {
+					sz = 1 + int(h.C-0x60)
+				}
+				if len(rest) < sz {
+					return fail()
+				}
+				cell := e.newObj(Iface{})
+				sub := Slice{O: e.newObj(Agg{F: append([]Val{}, rest[:sz]...)}), Len: sz, Cap: sz}
+				r := stubCborUnmarshal(e, fn, []Val{sub, Iface{T: types.NewPointer(anyT), V: Ptr{O: cell}}})
+				if iv, ok := r.(Iface); ok && iv.T != nil {
+					return r
+				}
+				elems = append(elems, cell.V)
+				rest = rest[sz:]
+			}
+			if len(rest) != 0 {
+				return fail()
+			}
+			e.store(p, Iface{T: types.NewSlice(anyT), V: Slice{O: e.newObj(Agg{F: elems}), Len: n, Cap: n}})
 		case hdr.C == 0x78 && len(cells) >= 2 && !cells[1].(Int).sym() && len(cells) == 2+int(cells[1].(Int).C):
 			e.store(p, Iface{T: types.Typ[types.String], V: Str{B: append([]Val{}, cells[2:]...)}})
 		default:
